@@ -20,7 +20,7 @@ ASSUMPTIONS = ["cubic-spline evaluation at an integer node reproduces the node v
 
 @st.composite
 def cases(draw, tier="quick"):
-    spec = draw(plotgen.plot_specs(thin=True, ndims=3, max_cells=2500 if tier == "quick" else 8000, min_fields=1, max_fields=4,
+    spec = draw(plotgen.plot_specs(thin=True, level_prefix=True, ndims=3, max_cells=2500 if tier == "quick" else 8000, min_fields=1, max_fields=4,
                                    payload_kinds=("random",)))
     nf = len(spec["fields"])
     nlev = spec["mesh"]["nlev"]
